@@ -29,6 +29,17 @@ LAZY_FIELDS = frozenset(
 )
 WIRE_PREFIX = "__wire|"
 
+# private attributes that carry an object's *value* (everything else that starts with an underscore is treated as an
+# implementation detail - a memo, a lazily filled field, bookkeeping - and is not part of the canonical form, so that a
+# behaviour-preserving refactor that adds such a field cannot raise an alarm; what such a field *does* is still
+# compared through the public answers)
+CORE_PRIVATE = frozenset(
+    [
+        "_id", "_name", "_location", "_parent_or_seq_chunk_parent", "_genomic_starts", "_genomic_ends", "_strand", "_val",
+        "_starts", "_ends", "_is_primary_feature", "_len", "_cds_start", "_cds_end", "_cds_frames",
+    ]
+)
+
 MAX_DEPTH = 80  # never reached on real values (finite DAGs, parent chains <= 5 levels); only a guard against cycles
 
 
@@ -44,7 +55,7 @@ def _fields(x):
             if isinstance(s, str) and s not in out:
                 try:
                     out[s] = object.__getattribute__(x, s)
-                except AttributeError:
+                except Exception:  # unset slot, or a slot name shadowed by a property that raises
                     pass
     d = getattr(x, "__dict__", None)
     if d:
@@ -115,7 +126,7 @@ def canon(x, depth=0, memo=None):
                 pass
             fields["strand"] = eff
         for k in sorted(fields):
-            if k in LAZY_FIELDS or k.startswith(WIRE_PREFIX):
+            if k in LAZY_FIELDS or k.startswith(WIRE_PREFIX) or (k.startswith("_") and k not in CORE_PRIVATE):
                 continue
             out[k] = canon(fields[k], depth + 1, memo)
         return out
